@@ -46,27 +46,39 @@ def run(ctx):
     ctx.oblig(ok, {"chunk size": const_int(ch[0][1]["args"][1])}, "2")
     if not ok:
         ctx.violation("chunk-size", sp_file_line(ch[0][1].get("sp")), "the loader splits the file into chunks of %s bytes (expected 2)" % const_int(ch[0][1]["args"][1]))
-    cls = [n for n, f in prog.fns.items() if n.startswith(RUN + "::{closure") and any(c and re.search(r"<impl u16>::from_\w+_bytes$", c) for b, t, c in f.calls())]
-    ctx.need(len(cls) == 1, "word-conversion closure of the loader")
-    cf = prog.fns[cls[0]]
-    conv = [(b, t, c) for b, t, c in cf.calls() if c and re.search(r"<impl u16>::from_\w+_bytes$", c)]
-    e = cf.expr(conv[0][1]["args"][0], 10)
+    # the conversion: from_be_bytes([chunk[0], chunk[1]]) on every chunk, in a `map` closure or in the body of a loop over the chunks
+    cands = [runf] + [f for n, f in prog.fns.items() if n.startswith(RUN + "::{closure")]
+    convs = [(f, b, t, c) for f in cands for b, t, c in f.calls() if c and re.search(r"<impl u16>::from_\w+_bytes$", c)]
+    ctx.need(len(convs) == 1, "word conversion of the loader (found %d)" % len(convs))
+    cf, cb_, ct_, cc_ = convs[0]
+    e = cf.expr(ct_["args"][0], 10)
     idx = []
     if e[0] == "agg":
         for x in e[2]:
             ii = [y[2] for y in expr_walk(x) if y[0] == "idx"]
             idx.append(ii[0][1] if ii and ii[0][0] == "const" else (ii[0] if ii else None))
     ctx.instance(1)
-    ok = conv[0][2].endswith("from_be_bytes") and idx == [0, 1]
-    ctx.oblig(ok, {"loader conversion": short(conv[0][2]).rsplit("::", 1)[-1], "byte indices": idx}, "from_be_bytes([w[0], w[1]])")
+    ok = cc_.endswith("from_be_bytes") and idx == [0, 1]
+    ctx.oblig(ok, {"loader conversion": short(cc_).rsplit("::", 1)[-1], "byte indices": idx}, "from_be_bytes([w[0], w[1]])")
     if not ok:
-        ctx.violation("loader-endianness", cf.file_line(), "the loader rebuilds words with %s over byte indices %s (expected from_be_bytes([w[0], w[1]]))" % (short(conv[0][2]).rsplit("::", 1)[-1], idx))
-    # the mapped iterator is collected in order and handed to from_raw
+        ctx.violation("loader-endianness", cf.file_line(), "the loader rebuilds words with %s over byte indices %s (expected from_be_bytes([w[0], w[1]]))" % (short(cc_).rsplit("::", 1)[-1], idx))
+    # every chunk is converted, in order, and the result is what from_raw gets
     fr_call = [(b, t) for b, t, c in runf.calls() if c == FROM_RAW]
     ctx.need(len(fr_call) == 1, "from_raw call in run()")
     e = expr_str(runf.expr(fr_call[0][1]["args"][0], 14), 300)
-    ok = "collect" in e and "map" in e and "chunks_exact" in e
-    ctx.oblig(ok, {"from_raw argument": e[:120]}, "chunks_exact(2).map(convert).collect()")
+    if cf is not runf:
+        ok = "collect" in e and "map" in e and "chunks_exact" in e
+        how = "chunks_exact(2).map(convert).collect()"
+    else:
+        # loop form: the conversion sits in a loop whose header advances the chunks_exact iterator, its result is pushed, and the pushed-to vector goes to from_raw
+        lps6 = kit.loops(runf)
+        hs = [h for h, (body, l) in lps6.items() if cb_ in body and runf.term(h)["k"] == "call" and (callee_of(runf.term(h)) or "").endswith("::next")
+              and "ChunksExact" in " ".join(runf.term(h).get("arg_tys") or []) and not re.search(r"adapters::(?!map)", " ".join(runf.term(h).get("arg_tys") or []))]
+        pushes = [b for b, t, c in runf.calls() if c and c.endswith("Vec::<T, A>::push") and hs and b in lps6[hs[0]][0]
+                  and "from_be_bytes" in expr_str(runf.expr(t["args"][1], 8), 200)]
+        ok = bool(hs) and len(pushes) == 1
+        how = "for chunk in chunks_exact(2) { words.push(convert(chunk)) }"
+    ctx.oblig(ok, {"from_raw argument": e[:120]}, how)
     if not ok:
         ctx.violation("loader-pipeline", sp_file_line(fr_call[0][1].get("sp")), "from_raw is not given the in-order conversion of the file's 2-byte chunks: %s" % e[:160])
     ctx.finish_rule()
@@ -197,11 +209,22 @@ def run(ctx):
         sm = fn.succ_map()
         for b in sorted(keep):
             t = fn.term(b)
-            if t["k"] == "switch" and any(x not in keep and fn.term(x)["k"] != "unreachable" for x in sm[b]):
+            if t["k"] != "switch":
+                continue
+            def diverts(x):
+                if fn.term(x)["k"] == "unreachable":
+                    return False
+                if x not in keep:
+                    return True
+                # reachable in the plain CFG, but perhaps only by pairing an inlined helper's `return Err(..)` with the caller's Ok edge
+                return not any(kit.feasible_path_avoiding(fn, x, g, set()) is not None for g in goals)
+            if any(diverts(x) for x in sm[b]):
                 yield b, t
     def has_call(e, pred):
         return any(x[0] == "call" and pred(str(x[1])) for x in expr_walk(e))
     def classify_run(e):
+        if e[0] == "discr" and e[1][0] == "call" and str(e[1][1]).endswith("Try>::branch") and not any(x[0] == "call" for a in e[1][2] for x in expr_walk(a)):
+            return "re-raised from a helper"          # `helper(..)?`: the helper's own refusals are classified where they are decided
         if e[0] == "discr" and has_call(e, lambda c: c.endswith("Path::extension")) and not has_call(e, lambda c: c.endswith("Try>::branch")):
             return "no extension"
         if e[0] == "call" and str(e[1]).endswith("PartialEq for str>::eq") and any(x[0] == "str" for x in expr_walk(e)):
